@@ -1,3 +1,4 @@
+import Sourmash.Model.SetOps
 /-!
 Spec/SetOps.lean — what properties C03 / C04 *say*, in terms of plain list set-operations
 (`filter`, `contains`, an insertion sort that drops duplicates).  Nothing here walks two lists in
@@ -54,3 +55,31 @@ def below (m : Nat) (ks : List Nat) : List Nat := ks.filter (· ≤ m)
 def belowP (m : Nat) (ps : List (Nat × Nat)) : List (Nat × Nat) := ps.filter (fun p => p.1 ≤ m)
 
 end SetSpec
+
+/-! ### the same at the level of sketches -/
+namespace SetOps
+open SetSpec
+
+/-- abundance of `h` in `s`: 0 when absent (1 for the present hashes of a sketch that does not track) -/
+def Sk.ab (s : Sk) (h : Nat) : Nat := look s.pairs h
+
+/-- What `a.merge(b)` must leave in `a`: the (bottom-`num` of the) union of the two hash sets; the
+sum of the two abundances for every retained hash when both operands track, no abundances otherwise;
+parameters of `a`. -/
+def mergeSpec (a b : Sk) : Sk :=
+  let ks := bottom a.num (union a.mins b.mins)
+  { a with mins := ks,
+           abunds := if a.track && b.track then some (ks.map (fun h => a.ab h + b.ab h)) else none }
+
+/-- a scaled sketch: no `num` bound, a non-zero ceiling, every hash under the ceiling,
+every abundance positive -/
+def Sk.Scaled (s : Sk) : Prop :=
+  s.WF ∧ s.num = 0 ∧ s.maxHash ≠ 0 ∧ (∀ h ∈ s.mins, h ≤ s.maxHash) ∧
+  (∀ ab, s.abunds = some ab → ∀ a ∈ ab, 0 < a)
+
+/-- What downsampling to ceiling `m` must produce: the hashes `≤ m` with their abundances. -/
+def belowSk (m : Nat) (s : Sk) : Sk :=
+  { s with maxHash := m, mins := below m s.mins,
+           abunds := s.abunds.map (fun ab => (belowP m (s.mins.zip ab)).map Prod.snd) }
+
+end SetOps
